@@ -1,13 +1,13 @@
-_c09_q = {"rep_programs": 10000, "bkrep_programs_depth1": 15000, "bkrep_programs_depth2": 10000, "bkrep_programs_depth3": 10000,
-          "bkrep_programs_depth4": 10000, "frame_roundtrips": 5000, "iterations": 50000000, "lc_sequences_compared": 100000,
-          "lc_last_position_sequences": 20000, "counter_values_compared": 1000000, "repc_sequences_compared": 500, "sto_rst_pairs_in_loop": 100000,
-          "flat_unrolled_compared": 10000, "two_word_last_instruction": 20000, "rep_form_imm8": 2000, "rep_form_reg": 2000,
-          "rep_form_r6": 2000, "bkrep_form_imm8": 20000, "bkrep_form_reg": 20000, "bkrep_form_r6": 20000,
-          "rep_counts": 44, "bkrep_counts": 44, "count_registers": 20, "nt": 400}
+_c09_q = {"rep_programs": 5000, "bkrep_programs_depth1": 8000, "bkrep_programs_depth2": 5000, "bkrep_programs_depth3": 5000,
+          "bkrep_programs_depth4": 5000, "frame_roundtrips": 2500, "iterations": 50000000, "lc_sequences_compared": 100000,
+          "lc_last_position_sequences": 20000, "counter_values_compared": 800000, "repc_sequences_compared": 500,
+          "sto_rst_pairs_in_loop": 100000, "flat_unrolled_compared": 10000, "two_word_last_instruction": 20000,
+          "rep_form_imm8": 1500, "rep_form_reg": 1500, "rep_form_r6": 1500, "bkrep_form_imm8": 15000, "bkrep_form_reg": 15000,
+          "bkrep_form_r6": 15000, "rep_counts": 44, "bkrep_counts": 44, "count_registers": 20, "nt": 400}
 _c09_sets = ("rep_counts", "bkrep_counts", "count_registers", "nt")
-_c09_t = {k: (v if k in _c09_sets else v * 40) for k, v in _c09_q.items()}
+_c09_t = {k: (v if k in _c09_sets else v * 30) for k, v in _c09_q.items()}
 PROPS["C09"] = dict(
-    jobs=[job("loops", "c09_loops", cases={Q: 6000, T: 300000})],
+    jobs=[job("loops", "c09_loops", cases={Q: 4000, T: 150000})],
     rule="loop programs on the real interpreter, single-stepped to an end marker, against (B) the same body instructions "
          "executed count+1 times by the harness with no loop instruction at all and (C, when <= 3000 words) a literally unrolled "
          "image: rep #imm8 / rep reg / rep r6 followed by a one-word instruction; bkrep #imm8 / reg / r6 nested 1-4 deep with "
